@@ -338,7 +338,7 @@ def run(ctx):
     # `res` and via coordinates; judged by the same clauses against the definition (not against NumPy)
     jobs = []
     suns = [(315, 45), (90, 60), (10, 5), (180, 89), (271, 0), (0, 70), (45, 33)]
-    for t in range(ctx.pick(65, 330)):
+    for t in range(ctx.pick(50, 200)):
         if t % 3 == 0:
             rows = tile([window(rng.randrange(4 ** 9), 4) for _ in range(6)], 2, 3)
         elif t % 3 == 1:
@@ -349,7 +349,9 @@ def run(ctx):
         H, W = len(rows), len(rows[0])
         az, alt = suns[t % len(suns)]
         uneven = [[[2, H - 2], [1, 3, W - 4] if W > 4 else [1, W - 1]], [[H - 1, 1], [W - 2, 2]]][t % 2]
-        for ck in ([[H], [W]], [[1] * H, [1] * W], uneven):        # single block, 1-cell chunks, uneven
+        # single block, 1-cell chunks (on the 6x9 tilings: 1-cell rows x 3-cell columns - 54 blocks are costly), uneven
+        one = [[1] * H, [1] * W] if H * W <= 35 else [[1] * H, [3] * (W // 3)]
+        for ck in ([[H], [W]], one, uneven):
             j = f_job(rows, t, az=az, alt=alt)
             j["chunks"] = ck
             jobs.append(j)
